@@ -134,7 +134,7 @@ Proof.
     exists (finish_shared res sh'). split; [exact W'|]. split.
     + intros t0 n0 c0 Hin0. apply in_app_or in Hin0. destruct Hin0 as [Hin0|Hin0].
       * apply Hkeep. eapply Hb; eauto.
-      * destruct res as [| |tr]; try (destruct Hin0).
+      * destruct res as [| | |tr]; try (destruct Hin0).
         destruct (result_cell n (s_sh st) (t_pc th)) as [c|] eqn:Erc; [|destruct Hin0].
         destruct Hin0 as [E|[]]. inversion E; subst t0 n0 c0.
         unfold bound. cbn [finish_shared reset_reg cmap]. exact (Hrc sh' tr c eq_refl eq_refl).
